@@ -17,10 +17,13 @@ func init() {
 		return []*Result{c.RuleEscParity(), c.RuleEscMatch(), c.RuleScanBound(), c.RuleFlagSet(), c.RuleSanitize()}
 	}}
 	Properties["X-ISO"] = &Property{ID: "X-ISO", Level: "other", Run: func(c *Ctx, tier string) []*Result {
-		return []*Result{c.RuleIsoFresh(), c.RuleIsoGlobal(), c.RuleIsoOwner(), c.RuleFlagsReject()}
+		return []*Result{c.RuleIsoFresh(), c.RuleIsoGlobal("update", "compare", "format", "renumber-tests", "update-copyright"), c.RuleIsoOwner(), c.RuleFlagsReject()}
 	}}
 	Properties["X-MISC"] = &Property{ID: "X-MISC", Level: "other", Run: func(c *Ctx, tier string) []*Result {
 		return append(c.RuleUpd(), c.RuleValidate(), c.RuleResolve(), c.RuleSplitJoinFrame(), c.RuleOrderKey())
+	}}
+	Properties["X-EXTRA"] = &Property{ID: "X-EXTRA", Level: "other", Run: func(c *Ctx, tier string) []*Result {
+		return []*Result{c.RuleTemplate(nil), c.RuleFsAlways([]string{"format", "renumber-tests", "update-copyright"}), c.RuleWalkSkip(), c.RuleFormatOnly(), c.RuleSuffixOps(), c.RuleIdxParam(), c.RuleErrFlags()}
 	}}
 	Properties["X-MAP"] = &Property{ID: "X-MAP", Level: "other", Run: func(c *Ctx, tier string) []*Result {
 		return []*Result{c.RuleMapOrder(), c.RuleDefFragment(), c.RuleNondetSrc([]string{"generate", "update", "compare", "format"})}
